@@ -9,7 +9,7 @@ import betterproto
 from vf.core import absval as av
 from vf.core.runner import Ctx, Tally
 from vf.core.smallscope import Fail, hkey, replay_case, run_universe
-from vf.core.universe import TypeCase, Universe, get_universe
+from vf.core.universe import TypeCase, Universe, fresh_variant, get_universe
 from vf.checks.c01 import build
 
 LEVEL = "model_checking"
@@ -76,6 +76,8 @@ def oracle(u: Universe, tc: TypeCase, aval: Dict[str, Any], route: str, tally: T
 
 
 def routes_fn(tc, aval):
+    if fresh_variant(tc.msg, aval):
+        return ROUTES + ("ctor_fresh",)  # empty messages in container positions as fresh instances
     return ROUTES
 
 
